@@ -11,7 +11,8 @@ LEVEL = "exploration"
 RULE = ("(a) controlled schedules: every object-pair and metadata-pair scenario of C07/C12 in which two calls touch "
         "one identifier (pid, cid or metadata document), plus sampled triples, run under the cooperative scheduler "
         "that owns every blocking primitive (the store's four condition variables, flock): all schedules with <= c "
-        "preemptions (c=1 quick / 2 thorough) + random walks. Verdict by STATE, never by time: a run in which some "
+        "preemptions (c=1 quick / 2 thorough) + random walks, plus random / PCT schedules with statement-level yield points "
+        "(sys.monitoring LINE events). Verdict by STATE, never by time: a run in which some "
         "thread is unfinished and none is runnable is a deadlock; at quiescence the four locked-identifier lists "
         "must be empty and no mutex owned; then store_metadata + delete_object on every pid involved must complete "
         "(a wait() there would block forever and is reported). (b) fault runs: for every single call of the C13 "
@@ -45,6 +46,9 @@ def shards(tier, seed):
         out.append(("conc", c, bound, 4 if tier == "quick" else 20, 0, s, None))
     for c, s in zip(chunk(triples, n), split_seeds(seed + 81, n)):
         out.append(("conc", c, 0 if tier == "quick" else 1, 8, 8 if tier == "quick" else 60, s, 1 if tier == "quick" else 300))
+    line_scns = list(allp)
+    for c, s in zip(chunk(line_scns[:96] if tier == "quick" else line_scns, n), split_seeds(seed + 83, n)):
+        out.append(("line", c, 6 if tier == "quick" else 40, s))
     try:
         from . import C13
         out += [("fault",) + a for a in C13.fault_shards(tier, seed)]
@@ -58,6 +62,11 @@ def min_required(tier):
 
 
 def run_shard(kind, *args):
+    if kind == "line":
+        scns, n_line, sub_seed = args
+        res = P.run_scenarios(scns, 0, 0, 0, sub_seed, SYMPTOMS, n_line=n_line, skip_dfs=True)
+        res.count("hygiene_checks", res.counters.get("schedules", 0))
+        return res
     if kind == "conc":
         scns, bound, n_random, pct, sub_seed, budget = args
         res = P.run_scenarios(scns, bound, n_random, pct, sub_seed, SYMPTOMS, budget=budget)
